@@ -287,7 +287,7 @@ var (
 	Count             = regexp.MustCompile(`^[0-9]+[\.]?[0-9]*$`)
 	CubicBezier       = regexp.MustCompile(`^cubic-bezier\(([ ]*(0(\.[0-9]+)?|1(\.0)?),){3}[ ]*(0(\.[0-9]+)?|1)\)$`)
 	Digits            = regexp.MustCompile(`^digits [2-4]$`)
-	DropShadow        = regexp.MustCompile(`drop-shadow\(([-]?[0-9]+px) ([-]?[0-9]+px)( [-]?[0-9]+px)?( ([-]?[0-9]+px))?`)
+	DropShadow        = regexp.MustCompile(`^drop-shadow\(([-]?[0-9]+px) ([-]?[0-9]+px)( [-]?[0-9]+px)?( ([-]?[0-9]+px))?`)
 	Font              = regexp.MustCompile(`^('[a-z \-]+'|[a-z \-]+)$`)
 	Grayscale         = regexp.MustCompile(`^grayscale\(([0-9]{1,2}|100)%\)$`)
 	GridTemplateAreas = regexp.MustCompile(`^['"]?[a-z ]+['"]?$`)
@@ -1020,10 +1020,14 @@ func FilterHandler(value string) bool {
 	if BrightnessCont.MatchString(value) {
 		return true
 	}
-	if DropShadow.MatchString(value) {
-		return true
+	if loc := DropShadow.FindStringIndex(value); loc != nil {
+		// what follows the offsets is an optional colour and the closing
+		// parenthesis, nothing else
+		rest := value[loc[1]:]
+		return rest == ")" ||
+			(strings.HasSuffix(rest, ")") && ColorHandler(strings.TrimSpace(strings.TrimSuffix(rest, ")"))))
 	}
-	colorValue := strings.TrimSuffix(string(DropShadow.ReplaceAll([]byte(value), []byte{})), ")")
+	colorValue := strings.TrimSuffix(value, ")")
 	if ColorHandler(colorValue) {
 		return true
 	}
